@@ -20,8 +20,12 @@ HEAVY = set(INSERTS) | {'remove', 'remove_subtree'}
 
 def weight(job):
     w = {0: 0.1, 1: 0.3, 2: 2, 3: 15, 4: 60, 5: 200, 6: 600}.get(job['N'], 1000)
+    if job.get('kind', '').startswith('c17'):
+        return {0: 0.1, 1: 0.5, 2: 5, 3: 40, 4: 100}.get(job['N'], 1000)
     if job.get('kind') == 'custom' and job.get('func') == 'run_clone_job':
         return {0: 0.1, 1: 0.5, 2: 8, 3: 150}.get(job['N'], 1000)
+    if job.get('kind') == 'custom' and job.get('module') == 'pretty':
+        return {1: 0.1, 2: 3, 3: 30, 4: 400}.get(job['N'], 1000)
     if job.get('kind') == 'custom' and job.get('module') in ('values', 'lookups'):
         return 0.2
     if job.get('kind') == 'custom':
@@ -119,8 +123,47 @@ def value_jobs(prop, tier):
     return jobs
 
 
+def c17_jobs(prop, tier):
+    import iters
+    jobs = []
+    base = ('dev', 'std')
+    cfgs = ['dev'] if tier == 'quick' else ['dev', 'release']
+    for cfg in cfgs:
+        for feat in ('nostd', 'all'):
+            b = (cfg, 'std'); o = (cfg, feat)
+            common = {'cfg': cfg, 'feat': 'std', 'base': list(b), 'other': list(o), 'needs': [list(b), list(o)], 'props': [prop]}
+            jobs.append(dict(common, kind='c17_id', name='mir_identity_std_vs_' + feat, op='mir_identity_std_vs_' + feat, N=0))
+            nm = 2 if tier == 'quick' else 3
+            for N in range(0, nm + 1):
+                for op in MUTATORS:
+                    if N == 0 and op in NEEDS_NODES: continue
+                    jobs.append(dict(common, kind='c17_mut', name='diff_' + op, op=op, N=N))
+            for N in range(1, (3 if tier == 'quick' else 4) + 1):
+                for name in iters.FWD + iters.EDGE:
+                    jobs.append(dict(common, kind='c17_iter', name=name, op='diff_' + name, N=N))
+    return jobs
+
+
+def pretty_jobs(prop, tier):
+    jobs = []
+    def J(N, trait, **kw):
+        j = {'kind': 'custom', 'module': 'pretty', 'func': 'run_pretty_job', 'name': 'pretty_' + trait.lower(), 'op': 'pretty_' + trait.lower(), 'N': N, 'trait': trait,
+             'cfg': 'dev', 'feat': 'std', 'props': [prop]}
+        j.update(kw); return j
+    for trait in ('Display', 'Debug'):
+        for N in (1, 2): jobs.append(J(N, trait))
+        for x in (1, 2, 3):
+            for alt in (0, 1): jobs.append(J(3, trait, fix_x=x, alt=alt))
+        if tier != 'quick':
+            for x in (1, 2, 3, 4):
+                for alt in (0, 1): jobs.append(J(4, trait, fix_x=x, alt=alt, rset=[0, 1, 4]))
+    return jobs
+
+
 def plan(prop, tier):
     jobs = mutator_jobs(prop, tier)
+    if prop == 'C14': jobs += pretty_jobs(prop, tier)
+    if prop == 'C17': jobs += c17_jobs(prop, tier)
     if prop == 'C13': jobs += value_jobs(prop, tier)
     if prop == 'C08': jobs += [j for j in lookup_jobs(prop, tier) if j['N'] >= 1]
     if prop == 'C11': jobs += lookup_jobs(prop, tier)
